@@ -23,6 +23,11 @@ import FerrousSpec.Gen.Lua
 namespace Ferrous.C12
 open Ferrous Ferrous.Lua
 
+/-! `Code.*` = every deviation of the tree as first analysed switched on (`Quirks.code`).  Which of
+    the switches the tree has NOW is regenerated on every run (`Gen.luaQuirksSeen`, also sent to the
+    driver by lib/c12.py); the `_partial` theorems below therefore hold for EVERY switch record `q`,
+    and each witness uses the variant in which ONLY its own switch is on: that switch alone violates
+    the full statement. -/
 namespace Code
 def respToLua := Lua.respToLua Quirks.code
 def luaToResp := Lua.luaToResp Quirks.code
@@ -71,67 +76,90 @@ theorem conversion_standard (q : Quirks) (hr : q.r2lFixed) (hl : q.l2rFixed) :
 
 example : Quirks.spec.r2lFixed ∧ Quirks.spec.l2rFixed := ⟨⟨rfl, rfl, rfl⟩, ⟨rfl, rfl, rfl, rfl⟩⟩
 
-/-- The code as it is agrees with the standard table exactly on this fragment:
+/-- Whatever deviations the tree has (any switch record `q`, in particular `Quirks.code` and the
+    regenerated one), it agrees with the standard table on this fragment:
     replies that are integers, valid-UTF-8 bulk strings, errors and arrays of such; return values
     that are nil, `true`, integers, integral numbers, strings and tables whose array part (up to the
     first nil) is non-empty and made of such values. -/
-theorem conversion_standard_partial :
-    (∀ f, agreeR f = true → Code.respToLua f = Spec.respToLua f) ∧
-    (∀ v, agreeL v = true → Code.luaToResp v = Spec.luaToResp v) :=
-  ⟨respToLua_code_agree, luaToResp_code_agree⟩
+theorem conversion_standard_partial (q : Quirks) :
+    (∀ f, agreeR f = true → Lua.respToLua q f = Spec.respToLua f) ∧
+    (∀ v, agreeL v = true → Lua.luaToResp q v = Spec.luaToResp v) :=
+  ⟨respToLua_agree q, luaToResp_agree q⟩
 
 example : agreeR (.array [.int (-5), .bulk [104, 105], .array [.bulk []]]) = true := by decide
 example : agreeL (.table [.int 1, .str [97], .table [.int 2], .nil, .bool false]) = true := by decide
 
-/-! #### one witness per deviation (DESIGN §6 row 26; each is replayed on the server by lib/c12.py) -/
+/-! #### one witness per deviation (DESIGN §6 row 26; each is replayed on the server by lib/c12.py).
+    `only…` = the standard table with exactly one switch on. -/
 
-/-- `redis.call('GET','missing')` is Lua `nil`, not `false` (so `== false` is false and `{r}` is empty). -/
+def onlyNilBulk : Quirks := { nilBulkIsNil := true }
+def onlyStatus : Quirks := { statusIsString := true }
+def onlyLossy : Quirks := { lossyStrings := true }
+def onlyPcallNil : Quirks := { pcallErrIsNil := true }
+def onlyFalseZero : Quirks := { falseIsZero := true }
+def onlyFracBulk : Quirks := { fracIsBulk := true }
+def onlyEmptyNil : Quirks := { emptyTableIsNil := true }
+def onlyNoOkErr : Quirks := { okErrTablesIgnored := true }
+def onlyUtf8Args : Quirks := { utf8ArgsOnly := true }
+def onlyShaDb0 : Quirks := { evalshaDb0 := true }
+
+/-- `redis.call('GET','missing')` is Lua `nil`, not `false`: `== false` is false (the reply is the
+    nil bulk of `false` instead of `:1`), and for every `q` with the switch on the value is `nil`. -/
 theorem conversion_fails_nil_bulk :
-    Code.respToLua .nullBulk = .nil ∧ Spec.respToLua .nullBulk = .bool false ∧
-    Code.respToLua .nullBulk ≠ Spec.respToLua .nullBulk := by
-  refine ⟨rfl, rfl, ?_⟩; intro h; cases h
+    (∀ q : Quirks, q.nilBulkIsNil = true → Lua.respToLua q .nullBulk = .nil ∧ Lua.respToLua q .nullArray = .nil) ∧
+    Spec.respToLua .nullBulk = .bool false ∧
+    Lua.respToLua onlyNilBulk .nullBulk ≠ Spec.respToLua .nullBulk := by
+  refine ⟨fun q h => by simp [Lua.respToLua, h], rfl, ?_⟩
+  intro h; cases h
 
 /-- consequence: an array reply is cut at its first nil element (`MGET k missing n` → one element). -/
 theorem conversion_fails_array_cut_at_nil :
+    viaLua onlyNilBulk (.array [.bulk [118], .nullBulk, .bulk [53]]) = .array [.bulk [118]] ∧
     viaLua Quirks.code (.array [.bulk [118], .nullBulk, .bulk [53]]) = .array [.bulk [118]] ∧
-    viaLua Quirks.spec (.array [.bulk [118], .nullBulk, .bulk [53]]) = .array [.bulk [118], .nullBulk, .bulk [53]] := by
-  constructor <;> rfl
+    viaLua Quirks.spec (.array [.bulk [118], .nullBulk, .bulk [53]]) = .array [.bulk [118], .nullBulk, .bulk [53]] :=
+  ⟨rfl, rfl, rfl⟩
 
 /-- a status reply (`+OK`) is a plain Lua string, returned as a bulk string. -/
 theorem conversion_fails_status :
-    Code.respToLua (.simple [79, 75]) = .str [79, 75] ∧ Spec.respToLua (.simple [79, 75]) = .statusTable [79, 75] ∧
-    viaLua Quirks.code (.simple [79, 75]) = .bulk [79, 75] ∧ viaLua Quirks.spec (.simple [79, 75]) = .simple [79, 75] := by
-  refine ⟨rfl, rfl, rfl, rfl⟩
+    Lua.respToLua onlyStatus (.simple [79, 75]) = .str [79, 75] ∧ Spec.respToLua (.simple [79, 75]) = .statusTable [79, 75] ∧
+    viaLua onlyStatus (.simple [79, 75]) = .bulk [79, 75] ∧ viaLua Quirks.code (.simple [79, 75]) = .bulk [79, 75] ∧
+    viaLua Quirks.spec (.simple [79, 75]) = .simple [79, 75] :=
+  ⟨rfl, rfl, rfl, rfl, rfl⟩
 
 /-- `return false` is `:0`, not a nil bulk. -/
 theorem conversion_fails_false :
-    Code.luaToResp (.bool false) = .int 0 ∧ Spec.luaToResp (.bool false) = .nullBulk := ⟨rfl, rfl⟩
+    (∀ q : Quirks, q.falseIsZero = true → Lua.luaToResp q (.bool false) = .int 0) ∧ Spec.luaToResp (.bool false) = .nullBulk :=
+  ⟨fun q h => by simp [Lua.luaToResp, h], rfl⟩
 
 /-- `return 3.7` is a bulk string (`3.70000000000000018` for the double nearest to 3.7), not `:3`. -/
 theorem conversion_fails_fraction :
-    Code.luaToResp (.num 4165829655317709 1125899906842624) =
+    Lua.luaToResp onlyFracBulk (.num 4165829655317709 1125899906842624) =
       .bulk [51, 46, 55, 48, 48, 48, 48, 48, 48, 48, 48, 48, 48, 48, 48, 48, 48, 49, 56] ∧
     Spec.luaToResp (.num 4165829655317709 1125899906842624) = .int 3 ∧
-    Code.luaToResp (.num (-1) 2) = .bulk [45, 48, 46, 53] ∧ Spec.luaToResp (.num (-1) 2) = .int 0 := by
-  refine ⟨rfl, rfl, rfl, rfl⟩
+    Lua.luaToResp onlyFracBulk (.num (-1) 2) = .bulk [45, 48, 46, 53] ∧ Spec.luaToResp (.num (-1) 2) = .int 0 :=
+  ⟨rfl, rfl, rfl, rfl⟩
 
 /-- `return {}` (and an empty array reply such as `LRANGE missing 0 -1`) is a nil bulk, not an empty array. -/
 theorem conversion_fails_empty_table :
-    Code.luaToResp (.table []) = .nullBulk ∧ Spec.luaToResp (.table []) = .array [] ∧
-    viaLua Quirks.code (.array []) = .nullBulk ∧ viaLua Quirks.spec (.array []) = .array [] := ⟨rfl, rfl, rfl, rfl⟩
+    Lua.luaToResp onlyEmptyNil (.table []) = .nullBulk ∧ Spec.luaToResp (.table []) = .array [] ∧
+    viaLua onlyEmptyNil (.array []) = .nullBulk ∧ viaLua Quirks.spec (.array []) = .array [] := ⟨rfl, rfl, rfl, rfl⟩
 
-/-- `return {ok='X'}` / `return {err='E'}` are not recognised (nil bulk instead of `+X` / `-E`). -/
+/-- `return {ok='X'}` / `return {err='E'}` are not recognised (an empty array — a nil bulk when empty
+    tables are nil too — instead of `+X` / `-E`). -/
 theorem conversion_fails_ok_err_tables :
-    Code.luaToResp (.statusTable [88]) = .nullBulk ∧ Spec.luaToResp (.statusTable [88]) = .simple [88] ∧
-    Code.luaToResp (.errTable [69]) = .nullBulk ∧ Spec.luaToResp (.errTable [69]) = .error [69] := ⟨rfl, rfl, rfl, rfl⟩
+    Lua.luaToResp onlyNoOkErr (.statusTable [88]) = .array [] ∧ Code.luaToResp (.statusTable [88]) = .nullBulk ∧
+    Spec.luaToResp (.statusTable [88]) = .simple [88] ∧
+    Lua.luaToResp onlyNoOkErr (.errTable [69]) = .array [] ∧ Code.luaToResp (.errTable [69]) = .nullBulk ∧
+    Spec.luaToResp (.errTable [69]) = .error [69] := ⟨rfl, rfl, rfl, rfl, rfl, rfl⟩
 
 /-- a failing `redis.pcall` evaluates to `nil`, not to the error table. -/
 theorem conversion_fails_pcall_error :
-    pcallFailure Quirks.code [69] = .nil ∧ pcallFailure Quirks.spec [69] = .errTable [69] := ⟨rfl, rfl⟩
+    (∀ q : Quirks, q.pcallErrIsNil = true → ∀ m, pcallFailure q m = .nil) ∧ pcallFailure Quirks.spec [69] = .errTable [69] :=
+  ⟨fun q h m => by simp [pcallFailure, h], rfl⟩
 
 /-- a bulk reply that is not valid UTF-8 reaches the script altered (`\xff` → U+FFFD). -/
 theorem conversion_fails_lossy_reply :
-    Code.respToLua (.bulk [255, 97]) = .str [239, 191, 189, 97] ∧ Spec.respToLua (.bulk [255, 97]) = .str [255, 97] :=
+    Lua.respToLua onlyLossy (.bulk [255, 97]) = .str [239, 191, 189, 97] ∧ Spec.respToLua (.bulk [255, 97]) = .str [255, 97] :=
   ⟨rfl, rfl⟩
 
 /-! ### (2) KEYS and ARGV -/
@@ -141,10 +169,10 @@ theorem keys_argv_bytewise (q : Quirks) (h : q.lossyStrings = false) (keys argv 
     mkEnv q keys argv = { keys := keys, argv := argv } := by
   simp [mkEnv, map_ls_off q _ h]
 
-/-- The code: only when every key and argument is valid UTF-8 … -/
-theorem keys_argv_bytewise_partial (keys argv : List Bytes)
+/-- Any variant (switch on or off): when every key and argument is valid UTF-8 … -/
+theorem keys_argv_bytewise_partial (q : Quirks) (keys argv : List Bytes)
     (hk : keys.all validUtf8 = true) (ha : argv.all validUtf8 = true) :
-    mkEnv Quirks.code keys argv = { keys := keys, argv := argv } := by
+    mkEnv q keys argv = { keys := keys, argv := argv } := by
   simp [mkEnv, map_ls_valid _ _ hk, map_ls_valid _ _ ha]
 
 /-- … which includes every ASCII string … -/
@@ -152,9 +180,10 @@ theorem ascii_is_valid (b : Bytes) (h : ∀ x ∈ b, x < 128) : validUtf8 b = tr
 
 /-- … and fails for `ARGV[1] = \xff\x00a`, which arrives as `U+FFFD \x00 a` (5 bytes instead of 3). -/
 theorem keys_argv_bytewise_fails :
-    mkEnv Quirks.code [] [[255, 0, 97]] = { keys := [], argv := [[239, 191, 189, 0, 97]] } ∧
-    mkEnv Quirks.code [] [[255, 0, 97]] ≠ { keys := [], argv := [[255, 0, 97]] } := by
-  constructor <;> decide
+    mkEnv onlyLossy [] [[255, 0, 97]] = { keys := [], argv := [[239, 191, 189, 0, 97]] } ∧
+    mkEnv onlyLossy [] [[255, 0, 97]] ≠ { keys := [], argv := [[255, 0, 97]] } ∧
+    mkEnv Quirks.code [[255]] [] = { keys := [[239, 191, 189]], argv := [] } := by
+  refine ⟨by decide, by decide, by decide⟩
 
 /-! ### (3) `redis.call cmd` ≡ the direct command -/
 
@@ -188,13 +217,14 @@ theorem call_reply_eq_direct (kq : KS.Quirks) (s : KS.Store) (db now : Nat) (key
     eval Quirks.spec kq s db now keys argv ⟨[⟨false, cmd.map Arg.lit⟩], .res 1⟩ = KS.step kq s db now cmd none := by
   rw [call_eq_direct _ _ _ _ _ _ _ _ h, viaLua_spec_clean _ hc]
 
-/-- The code as it is: equality on the fragment `transparent` (errors, integers below 2^53,
-    valid-UTF-8 bulk strings, non-empty arrays of the latter two) for commands whose arguments are
-    valid UTF-8.  Outside it the reply differs as the witnesses above show. -/
-theorem call_reply_eq_direct_partial (kq : KS.Quirks) (s : KS.Store) (db now : Nat) (keys argv cmd : List Bytes)
-    (h : allowed Quirks.code cmd = true) (hc : transparent (KS.step kq s db now cmd none).2 = true) :
-    eval Quirks.code kq s db now keys argv ⟨[⟨false, cmd.map Arg.lit⟩], .res 1⟩ = KS.step kq s db now cmd none := by
-  rw [call_eq_direct _ _ _ _ _ _ _ _ h, viaLua_code_transparent _ hc]
+/-- Any variant, in particular the code as it is: equality on the fragment `transparent` (errors,
+    integers below 2^53, valid-UTF-8 bulk strings, non-empty arrays of the latter two) for commands
+    that are not refused (`allowed`: with `utf8ArgsOnly` on, all arguments valid UTF-8).
+    Outside it the reply differs as the witnesses above show. -/
+theorem call_reply_eq_direct_partial (q : Quirks) (kq : KS.Quirks) (s : KS.Store) (db now : Nat) (keys argv cmd : List Bytes)
+    (h : allowed q cmd = true) (hc : transparent (KS.step kq s db now cmd none).2 = true) :
+    eval q kq s db now keys argv ⟨[⟨false, cmd.map Arg.lit⟩], .res 1⟩ = KS.step kq s db now cmd none := by
+  rw [call_eq_direct _ _ _ _ _ _ _ _ h, viaLua_transparent _ _ hc]
 
 /-- non-vacuity: `RPUSH l a b` through a script on an empty store: reply `:2`, list created -/
 example : eval Quirks.code {} KS.emptyStore 3 1000 [] []
@@ -205,7 +235,7 @@ example : allowed Quirks.code [[82, 80, 85, 83, 72], [108], [97], [98]] = true :
 /-- A command with an argument that is not valid UTF-8 is refused inside a script although the
     direct command accepts it (`SET k \xff`). -/
 theorem call_eq_direct_fails_binary_argument :
-    (eval Quirks.code {} KS.emptyStore 0 1000 [] [] ⟨[⟨false, [[83, 69, 84], [107], [255]].map Arg.lit⟩], .res 1⟩).1 = KS.emptyStore ∧
+    (eval onlyUtf8Args {} KS.emptyStore 0 1000 [] [] ⟨[⟨false, [[83, 69, 84], [107], [255]].map Arg.lit⟩], .res 1⟩).1 = KS.emptyStore ∧
     (KS.step {} KS.emptyStore 0 1000 [[83, 69, 84], [107], [255]] none).1 ≠ KS.emptyStore ∧
     (eval Quirks.spec {} KS.emptyStore 0 1000 [] [] ⟨[⟨false, [[83, 69, 84], [107], [255]].map Arg.lit⟩], .res 1⟩) =
       KS.step {} KS.emptyStore 0 1000 [[83, 69, 84], [107], [255]] none := by
@@ -309,10 +339,10 @@ theorem evalsha_eq_eval (q : Quirks) (kq : KS.Quirks) (c : Cache) (s : KS.Store)
     evalsha q kq c s db now sha keys argv = eval q kq s db now keys argv p := by
   simp [evalsha, hc, h]
 
-/-- The code: only on database 0 … -/
-theorem evalsha_eq_eval_partial (kq : KS.Quirks) (c : Cache) (s : KS.Store) (now : Nat) (sha : Bytes)
+/-- Any variant (switch on or off): on database 0 … -/
+theorem evalsha_eq_eval_partial (q : Quirks) (kq : KS.Quirks) (c : Cache) (s : KS.Store) (now : Nat) (sha : Bytes)
     (keys argv : List Bytes) (p : Program) (hc : cacheGet c sha = some p) :
-    evalsha Quirks.code kq c s 0 now sha keys argv = eval Quirks.code kq s 0 now keys argv p := by
+    evalsha q kq c s 0 now sha keys argv = eval q kq s 0 now keys argv p := by
   simp [evalsha, hc]
 
 /-- … and an unknown SHA changes nothing. -/
@@ -324,8 +354,8 @@ theorem evalsha_unknown (q : Quirks) (kq : KS.Quirks) (c : Cache) (s : KS.Store)
 /-- Witness: after `SELECT 1`, EVALSHA of `redis.call('SET','k','v')` writes `k` into database 0. -/
 theorem evalsha_eq_eval_fails :
     let p : Program := ⟨[⟨false, [[83, 69, 84], [107], [118]].map Arg.lit⟩], .res 1⟩
-    let a := evalsha Quirks.code {} [([1], p)] KS.emptyStore 1 1000 [1] [] []
-    let b := eval Quirks.code {} KS.emptyStore 1 1000 [] [] p
+    let a := evalsha onlyShaDb0 {} [([1], p)] KS.emptyStore 1 1000 [1] [] []
+    let b := eval onlyShaDb0 {} KS.emptyStore 1 1000 [] [] p
     (KS.lookup (KS.getDb a.1 0) [107]).isSome = true ∧ (KS.lookup (KS.getDb a.1 1) [107]).isSome = false ∧
     (KS.lookup (KS.getDb b.1 0) [107]).isSome = false ∧ (KS.lookup (KS.getDb b.1 1) [107]).isSome = true := by
   decide
